@@ -200,6 +200,21 @@ class Class(Node):
   def __contains__(self, name):
     return bool(self.Get(name))
 
+  def __eq__(self, other):
+    # _name2item is only a lookup cache: whether it has been filled (by Lookup,
+    # e.g. while printing) must not decide whether two classes are equal.
+    if self.__class__ is not other.__class__:
+      return NotImplemented
+    return all(
+        getattr(self, f) == getattr(other, f)
+        for f in self.__struct_fields__
+        if f != '_name2item'
+    )
+
+  def __ne__(self, other):
+    eq = self.__eq__(other)
+    return eq if eq is NotImplemented else not eq
+
   def __hash__(self):
     # _name2item is a dict, so it can't be hashed. This worked in the previous
     # version by pretending that _name2item didn't exist.
